@@ -318,8 +318,13 @@ class Walker:
                 t2, f = self.split_test(v, f)
                 t = t + t2
             return t, f
-        if isinstance(test, ast.UnaryOp) and isinstance(test.op, ast.Not) and isinstance(test.operand, ast.BoolOp):
+        if isinstance(test, ast.UnaryOp) and isinstance(test.op, ast.Not):
+            # `not x`: the recorded test is x with the outcomes swapped (a test and its negation are one recorded condition)
             f, t = self.split_test(test.operand, paths)
+            return t, f
+        if isinstance(test, ast.Compare) and len(test.ops) == 1 and isinstance(test.ops[0], (ast.NotEq, ast.IsNot)):
+            pos = ast.Compare(left=test.left, ops=[ast.Eq() if isinstance(test.ops[0], ast.NotEq) else ast.Is()], comparators=test.comparators)
+            f, t = self.split_test(ast.copy_location(pos, test), paths)
             return t, f
         a, b = [], []
         for p in paths:
